@@ -11,7 +11,7 @@ Oracle  independent of the model, on the real command output only: second export
         existing name refused without --overwrite with everything unchanged, accepted with it.
 """
 import hashlib, json, os, re, sqlite3, time
-from common import Check, run_lines, shrink, REPO
+from common import Check, run_lines, shrink, REPO, VERIF
 from xvcbin import Sandbox
 import pipe_common as pc
 
@@ -36,7 +36,7 @@ COMMANDS_WILD = ["echo 'héllo \"w\"'", 'echo a\necho b', "printf '%s\\n' \"a b\
                  'echo "!Yaml"', 'echo "a\tb"', 'echo x\u2028y', 'echo \x7f', "echo 'a: |\n  b'", 'echo "%d" 1']
 # commands that succeed under `sh -c` (pipelines that are run)
 COMMANDS_OK = ['true', 'echo hi', "echo 'héllo \"w\"'", 'echo a\necho b', 'cat a.txt > /dev/null', ':', 'echo 日本 # c', "printf '%s\\n' x"]
-GLOBS_RUN = ['d/*.dat', '*.txt', 'd/[xy].dat', 'é*/*', 'nothing/*.none', 'sub dir/*', 'd/**/*.bin']   # a glob matching a directory kills the run (K4b)
+GLOBS_RUN = ['d/*.dat', '*.txt', 'g/*', 'g/[a-z]*', 'd/[xy].dat', 'é*/*', 'nothing/*.none', 'sub dir/*', 'd/**/*.bin']   # a glob matching a directory kills the run (K4b)
 GLOBS = ['d/*.dat', 'd/*', '*.txt', 'd/**/*', 'd/[xy].dat', 'é*/*', 'nothing/*.none', 'sub dir/*']
 REGEXES = ['^l', '^l[12]', 'x$', '\\d+', '[a-z]+\\s', 'é', '"q"', "it's", 'a|b', '^$', '(?i)HEAD', 'a{1,2}', '\\\\']
 QUERIES = ['select * from t', 'select count(*) from t', "select b from t where a > 0 -- 'c'", 'select "é", a from t']
@@ -50,15 +50,25 @@ def pick(rng, *pools, w=None):
 # ------------------------------------------------------------------------------------------------
 # workspace used by pipelines that are run
 
+WILD_FILES = ['a: b.txt', '? x', "'q'", 'a - y', '#h', 'nl\nname', ' sp ', 'é', '{b}', 'null', '123', 'tab\tx', 'nel\u0085x', '"dq"', 'a,b', '[l]',
+              '&a', '*a', '!t', '|', '>', '%p', '@a', '`b`', '~', 'y', 'No']
+PARAM_YAML_WILD = ('inf: .inf\nnan: .nan\nbin: !!binary aGk=\nik: {1: x, 2: y}\nnl: [null, ~]\nts: 2001-12-14t21:59:43.10-05:00\noct: 0o14\nhex: 0x1F\n'
+                   'nel: "\\u0085 nel"\ntag: !custom tagged\nus: 1_000\nninf: -.inf\none: 1.0\nexp: 1e3\nsexp: "1e3"\nstrue: "true"\nsnull: "null"\n'
+                   'tilde: "~"\ndeep: {a: {b: [1, {c: d}]}}\nll: [[1,2],[3]]\ncrlf: "line1\\nline2\\r\\nline3"\nlead: " lead"\ntrail: "trail "\n'
+                   'nz: -0.0\ni63: 9223372036854775808\nmin: -9223372036854775808\n')
 PARAM_YAML = ('k: 3\nf: 0.25\nneg: -7\nbig: 18446744073709551615\ns: "a string: with # chars"\nu: "é日本"\nb: true\nl: [1, 2.5, "x", false]\n'
-              'm:\n  n: [1, 2]\n  o:\n    p: deep\nml: |\n  line1\n  line2\nempty: ""\nq: \'it\'\'s\'\ne: 1.0e+20\n')
+              'm:\n  n: [1, 2]\n  o:\n    p: deep\nml: |\n  line1\n  line2\nempty: ""\nq: \'it\'\'s\'\ne: 1.0e+20\n' + PARAM_YAML_WILD)
 PARAM_JSON = json.dumps({'k': 3, 'f': 0.25, 'neg': -7, 'big': 18446744073709551615, 's': 'a "q" \\ string', 'u': 'é日本\n', 'b': False,
-                         'l': [1, 2.5, 'x', None, {'z': 1}], 'm': {'n': [1, 2], 'o': {'p': 'deep'}}, 'e': 1e+20, 'tiny': 5e-324})
+                         'l': [1, 2.5, 'x', None, {'z': 1}], 'm': {'n': [1, 2], 'o': {'p': 'deep'}}, 'e': 1e+20, 'tiny': 5e-324,
+                         'max': 1.7976931348623157e308, 'huge': 12345678901234567890123, 'emoji': '\U0001F600', 'll': [[]], 'eo': {}, 'nul': '\x00nul', 'ls': '\u2028'})
 PARAM_TOML = ('k = 3\nf = 0.25\nneg = -7\ns = "a \\"q\\" string"\nu = "é日本"\nb = true\nl = [1, 2, 3]\nls = ["a", "b"]\n'
-              'dt = 1979-05-27T07:32:00Z\nd = 1979-05-27\n[m]\nn = [1, 2]\n[m.o]\np = "deep"\n')
-PARAM_KEYS = {'params.yaml': ['k', 'f', 'neg', 'big', 's', 'u', 'b', 'l', 'm.n', 'm.o.p', 'm', 'm.o', 'ml', 'empty', 'q', 'e'],
-              'conf/p.json': ['k', 'f', 'neg', 'big', 's', 'u', 'b', 'l', 'm.n', 'm.o.p', 'm', 'e', 'tiny'],
-              'p.toml': ['k', 'f', 'neg', 's', 'u', 'b', 'l', 'ls', 'dt', 'd', 'm.n', 'm.o.p', 'm']}
+              'dt = 1979-05-27T07:32:00Z\nd = 1979-05-27\ntm = 07:32:00\nnz = -0.0\nnest = [[1,2],["a"]]\ninl = {x=1,y="z"}\noff = 1979-05-27T00:32:00.999999-07:00\n'
+              'mls = "multi\\nline"\nmaxi = 9223372036854775807\nbigf = 1e300\n[m]\nn = [1, 2]\n[m.o]\np = "deep"\n')
+PARAM_KEYS = {'params.yaml': ['k', 'f', 'neg', 'big', 's', 'u', 'b', 'l', 'm.n', 'm.o.p', 'm', 'm.o', 'ml', 'empty', 'q', 'e', 'inf', 'nan', 'bin', 'ik', 'nl', 'ts',
+                              'oct', 'hex', 'nel', 'tag', 'us', 'ninf', 'one', 'exp', 'sexp', 'strue', 'snull', 'tilde', 'deep', 'll', 'crlf', 'lead', 'trail',
+                              'nz', 'i63', 'min'],
+              'conf/p.json': ['k', 'f', 'neg', 'big', 's', 'u', 'b', 'l', 'm.n', 'm.o.p', 'm', 'e', 'tiny', 'max', 'huge', 'emoji', 'll', 'eo', 'nul', 'ls'],
+              'p.toml': ['k', 'f', 'neg', 's', 'u', 'b', 'l', 'ls', 'dt', 'd', 'm.n', 'm.o.p', 'm', 'tm', 'nz', 'nest', 'inl', 'off', 'mls', 'maxi', 'bigf']}
 
 
 def make_workspace(sb):
@@ -67,6 +77,9 @@ def make_workspace(sb):
     sb.write('d/x.dat', '1\n'); sb.write('d/y.dat', '2\n'); sb.write('d/sub/z.bin', b'\x00\x01\xff')
     sb.write('édir/ü.txt', 'ü\n')
     sb.write('sub dir/f 1.csv', 'a,b\n')
+    for i, n in enumerate(WILD_FILES):
+        sb.write('g/' + n, str(i))
+    sb.write('crlf.txt', b'l1\r\nl2 \r\n\r\n  x\r\nlast\r')
     sb.write('lines.txt', 'l1\nl2 "q"\nl3 é日本\n\nx 42\n  indented: yes\n# hash\n- dash\nHEAD\nlast')
     sb.write('params.yaml', PARAM_YAML)
     sb.write('conf/p.json', PARAM_JSON)
@@ -90,11 +103,11 @@ def gen_dep(rng, runnable, step_names):
         key = rng.choice(PARAM_KEYS[f]) if runnable or rng.random() < 0.7 else rng.choice(['no.such', 'a b', 'é', 'x"y'])
         return pc.Dep('Param', path=f, key=key)
     if kind in ('Regex', 'RegexItems'):
-        return pc.Dep(kind, path=rng.choice(['lines.txt', 'a.txt'] if runnable else ['lines.txt', 'a.txt', 'none.log', 'b c.txt']),
+        return pc.Dep(kind, path=rng.choice(['lines.txt', 'a.txt', 'crlf.txt'] if runnable else ['lines.txt', 'a.txt', 'none.log', 'b c.txt']),
                       regex=rng.choice(REGEXES))
     if kind in ('Lines', 'LineItems'):
         b, e = rng.choice([(0, 1), (1, 3), (2, 2), (0, 100), (5, 9), (3, 1), (0, 0)])
-        return pc.Dep(kind, path=rng.choice(['lines.txt', 'a.txt', 'sub dir/f 1.csv']), begin=b, end=e)
+        return pc.Dep(kind, path=rng.choice(['lines.txt', 'a.txt', 'sub dir/f 1.csv', 'crlf.txt']), begin=b, end=e)
     if kind == 'Step':
         if not step_names:
             return pc.Dep('File', path='a.txt')
@@ -317,6 +330,8 @@ class Real:
 
     def roundtrip(self, src, dst, fmt, via, ow):
         names0, rows0, _ = self.names()
+        if src not in names0:              # precondition of the probe (only unmet in shrunk scenarios)
+            self.trace.append(('roundtrip', None)); return
         snap0 = self.snapshot(names0)
         rc1, text1, err1, f1 = self.export(src, fmt, to_file=True)
         if rc1 != 0 or text1 is None:
@@ -356,8 +371,13 @@ class Real:
 
     def refuse(self, src, dst, fmt):
         names0, rows0, list0 = self.names()
+        if src not in names0 or dst not in names0:
+            self.trace.append(('refuse', None)); return
         snap0 = self.snapshot(names0)
         rc1, text1, err1, f1 = self.export(src, fmt, to_file=True)
+        if rc1 != 0:
+            self.fail(f'export of pipeline {src!r} ({fmt}) failed', rc=rc1, stderr=err1[-400:])
+            self.trace.append(('refuse', None)); return
         rc2, out2, err2 = self.sb.x('pipeline', '-p', dst, 'import', '--file', f1)
         names1, rows1, list1 = self.names()
         snap1 = self.snapshot(names1)
@@ -523,7 +543,7 @@ class Mirror:
             elif k == 'roundtrip':
                 o = ob[1]
                 if o is None:
-                    out += ['ok', 'err', 'bad-op', 'ok', 'err', '?']
+                    out += [None] * 6
                 else:
                     # the json text of a yaml round trip is compared through the oracle; here: json only
                     e1 = self.canon_export(json_of(o, 'export1'), 'json', not ran)
@@ -531,7 +551,7 @@ class Mirror:
                     out += ['ok', e1, 'ok' if o['import_ok'] else 'err', 'ok', e2 if e2 is not None else None, self.canon_list(o['list'])]
             elif k == 'refuse':
                 o = ob[1]
-                out += [None, 'ok' if o['rc_ok'] else 'err', self.canon_list(o['list'])]
+                out += [None, None, None] if o is None else [None, 'ok' if o['rc_ok'] else 'err', self.canon_list(o['list'])]
         return out
 
 
@@ -634,24 +654,67 @@ def signature(failure_texts, sc):
     return sig
 
 
-def minimise(chk, xvc, order, base, sc, kind):
-    """drop ops while the scenario still fails the same way"""
-    def fails(ops):
-        s = dict(sc, ops=ops)
+def minimise(chk, xvc, order, base, sc, kind, want):
+    """parallel delta debugging over the op list: drop chunks of ops while the scenario still fails the same way
+    (`want`: the signature kind of the oracle failure, or the first word of the disagreeing driver line)"""
+    t0 = time.time()
+
+    def fails_many(cands):
+        scs = [dict(sc, id=f'{sc["id"]}m{i}', ops=ops) for i, ops in enumerate(cands)]
         try:
-            res = run_scenarios(chk, xvc, MODEL[0] if kind == 'tie' else None, [s], order, base)
+            res = run_scenarios(chk, xvc, MODEL[0] if kind == 'tie' else None, scs, order, base)
         except Exception:
-            return False
-        sc_, r, m, got = res[0]
-        if kind == 'oracle':
-            return bool(r.oracle)
-        exp = m.expected(r)
-        return got is not None and any(e is not None and e != g for e, g in zip(exp, got))
-    ops = shrink(list(sc['ops']), fails, max_steps=60)
+            return [False] * len(cands)
+        out = []
+        for sc_, r, m, got in res:
+            if kind == 'oracle':
+                out.append(bool(r.oracle) and signature([f['what'] for f in r.oracle], sc_)['kind'] == want)
+            else:
+                exp, ls = m.expected(r), m.lines()
+                out.append(got is not None and any(e is not None and e != g and ls[i].split(' ')[0] == want
+                                                   for i, (e, g) in enumerate(zip(exp, got))))
+        return out
+    ops, n, rounds = list(sc['ops']), 2, 0
+    while len(ops) >= 2 and rounds < 10 and time.time() - t0 < 90:
+        rounds += 1
+        chunk = -(-len(ops) // n)
+        cands = [ops[:i] + ops[i + chunk:] for i in range(0, len(ops), chunk)]
+        cands = [c for c in cands if c]
+        res = fails_many(cands)
+        hit = next((c for c, f in zip(cands, res) if f), None)
+        if hit is not None:
+            ops, n = hit, max(n - 1, 2)
+        elif chunk == 1:
+            break
+        else:
+            n = min(len(ops), n * 2)
     return dict(sc, ops=ops)
 
 
 MODEL = [None]
+PROPOSED_FINDINGS = os.path.join(VERIF, 'lib', 'c14_known_findings.json')
+
+
+def corpus_nonfinite(chk, xvc, base):
+    """K-C14-toml-nonfinite: a TOML parameter `inf`/`nan` recorded by a successful run is written to the dependency store as
+    JSON `null` (serde_json has no non-finite numbers) which cannot be read back: export (and every other command that
+    loads the dependency store) panics.  Kept out of the generated stream, judged here by the oracle alone."""
+    sb = Sandbox(base, 'corpus_nonfinite', xvc)
+    sb.init(git=False)
+    sb.write('w.toml', 'lr = inf\n')
+    case = ['write w.toml "lr = inf"', 'pipeline -p p new', 'pipeline -p p step new -s s -c true', 'pipeline -p p step dependency -s s --param w.toml::lr',
+            'pipeline -p p run', 'pipeline -p p export']
+    sb.x('pipeline', '-p', 'p', 'new'); sb.x('pipeline', '-p', 'p', 'step', 'new', '-s', 's', '-c', 'true')
+    sb.x('pipeline', '-p', 'p', 'step', 'dependency', '-s', 's', '--param', 'w.toml::lr')
+    rc, out, err = sb.x('pipeline', '-p', 'p', 'run', timeout=40)
+    rc2, out2, err2 = sb.x('pipeline', '-p', 'p', 'export')
+    chk.evaluations += 1
+    chk.count('corpus:toml-nonfinite')
+    if rc == 0 and rc2 != 0:
+        chk.oracle_failure('export of a pipeline fails after a successful run recorded a non-finite TOML parameter value', case,
+                           {'run_rc': rc, 'export_rc': rc2, 'stderr': err2[-400:]},
+                           signature={'kind': 'export-fails-after-run', 'param': 'toml-nonfinite-float'})
+    sb.cleanup()
 
 
 def run(chk: Check):
@@ -691,6 +754,8 @@ def run(chk: Check):
                          'pipeline that has steps; distinct by op list.')
     base = os.path.join(chk.scratch, 'repos')
     os.makedirs(base, exist_ok=True)
+    pc.load_proposed(chk, PROPOSED_FINDINGS)
+    corpus_nonfinite(chk, xvc, base)
     scs = [gen_scenario(chk.rng, i, False) for i in range(nstatic)] + [gen_scenario(chk.rng, nstatic + i, True) for i in range(nrun)]
     bad = []
     for i in range(0, len(scs), 64):
@@ -699,11 +764,12 @@ def run(chk: Check):
         chk.notes.append('model driver did not build; only the implementation-side oracle ran')
     seen = set()
     for kind, sc, info in bad:
-        key = (kind, info[0]['what'][:60] if kind == 'oracle' else info['line'].split(' ')[0])
-        if key in seen or len(seen) >= 6:
+        want = signature([f['what'] for f in info], sc)['kind'] if kind == 'oracle' else info['line'].split(' ')[0]
+        key = (kind, want)
+        if key in seen or len(seen) >= 4:
             continue
         seen.add(key)
-        small = minimise(chk, xvc, order, base, sc, kind)
+        small = minimise(chk, xvc, order, base, sc, kind, want)
         res = run_scenarios(chk, xvc, MODEL[0] if kind == 'tie' else None, [small], order, base)[0]
         case = {'id': small['id'], 'runnable': small['runnable'], 'git': small['git'], 'ops': [enc_op(o) for o in small['ops']]}
         if kind == 'oracle':
@@ -730,8 +796,12 @@ def replay(chk: Check, data):
         order = FALLBACK_ORDER
     base = os.path.join(chk.scratch, 'repos')
     os.makedirs(base, exist_ok=True)
+    pc.load_proposed(chk, PROPOSED_FINDINGS)
     for f in data.get('failures', []):
         c = f['case']
+        if isinstance(c, list):            # corpus case
+            corpus_nonfinite(chk, xvc, base)
+            continue
         sc = {'id': c['id'], 'runnable': c['runnable'], 'git': c['git'], 'ops': [dec_op(o) for o in c['ops']]}
         sc_, r, m, got = run_scenarios(chk, xvc, None, [sc], order, base)[0]
         chk.evaluations += 1
